@@ -12,7 +12,8 @@
 (***************************************************************************)
 EXTENDS Integers, Sequences, TLC, Json, CSV
 
-CONSTANTS Sizes, OutFile
+CONSTANTS Sizes, OutFile,
+          Exps      \* exponents e for the shapes whose parameter is a count of about 2^e
 
 Shapes == {"nest-bind",        \* {{{...}}} bind          nesting = size
            "nest-exec",        \* {{{...}}} exec exec ... nesting = size
@@ -44,8 +45,13 @@ Shapes == {"nest-bind",        \* {{{...}}} bind          nesting = size
            "alias-cycle-2",    \* /a {b} 0 get def /b {a} 0 get def b
            "t1-seac-codes"}    \* Type 1 fonts whose seac names unassigned codes of StandardEncoding, with every encoding form
 
+\* shapes parameterised by an exponent e: the counts 2^e - 1, 2^e and -(2^e) in every place of the input that
+\* announces how many entries follow (a reader must not believe them: no allocation by announcement)
+ExpShapes == {"afm-counts"}    \* AFM: StartCharMetrics / StartKernPairs / StartKernPairs0 / StartKernPairs1 / StartTrackKern / StartComposites n
+
 VARIABLE pick
 Init == pick = <<>>
-Next == pick = <<>> /\ \E sh \in Shapes, n \in Sizes : pick' = <<sh, n>>
+Next == pick = <<>> /\ (\/ \E sh \in Shapes, n \in Sizes : pick' = <<sh, n>>
+                       \/ \E sh \in ExpShapes, e \in Exps : pick' = <<sh, e>>)
 Emit == pick # <<>> => CSVWrite("%1$s", <<ToJson([shape |-> pick[1], size |-> pick[2], expect |-> "returns"])>>, OutFile)
 =============================================================================
